@@ -92,8 +92,8 @@ type workerMsg struct {
 	Packets    int64            `json:"packets,omitempty"`
 	Fired      map[string]int64 `json:"fired,omitempty"`
 	Probes     map[string]int64 `json:"probes,omitempty"`
-	FPs        []string         `json:"fps,omitempty"`
-	Logs       []string         `json:"logs,omitempty"`
+	FPs        []uint64         `json:"fps,omitempty"`
+	Logs       []uint64         `json:"logs,omitempty"`
 	ViolCount  map[string]int64 `json:"violcount,omitempty"`
 	Nontrivial int64            `json:"nontrivial,omitempty"`
 }
@@ -136,8 +136,8 @@ func Worker(prop, tier string, seed uint64, w, W int, start, limit int64) int {
 		}
 	}()
 	sum := workerMsg{T: "sum", Fired: map[string]int64{}, Probes: map[string]int64{}, ViolCount: map[string]int64{}}
-	fps := map[string]struct{}{}
-	logs := map[string]struct{}{}
+	fps := map[uint64]struct{}{}
+	logs := map[uint64]struct{}{}
 	perKey := map[string]int{}
 	samples := 0
 	first := start
@@ -172,10 +172,10 @@ func Worker(prop, tier string, seed uint64, w, W int, start, limit int64) int {
 			sum.Nontrivial++
 		}
 		for _, f := range o.AbsFP {
-			fps[f] = struct{}{}
+			fps[fnv64([]byte(f))] = struct{}{}
 		}
 		if ls := o.Log.Sum(); ls != "" {
-			logs[ls[:16]] = struct{}{}
+			logs[fnv64([]byte(ls))] = struct{}{}
 		}
 		var mine []Violation
 		for _, v := range o.Violations {
@@ -217,11 +217,9 @@ func Worker(prop, tier string, seed uint64, w, W int, start, limit int64) int {
 	for f := range fps {
 		sum.FPs = append(sum.FPs, f)
 	}
-	sort.Strings(sum.FPs)
 	for l := range logs {
 		sum.Logs = append(sum.Logs, l)
 	}
-	sort.Strings(sum.Logs)
 	emit(sum)
 	return 0
 }
@@ -324,8 +322,8 @@ func runWorkers(o CheckOpts, e Engine) (*aggregate, error) {
 	agg.Fired = map[string]int64{}
 	agg.Probes = map[string]int64{}
 	agg.ViolCount = map[string]int64{}
-	fps := map[string]struct{}{}
-	logs := map[string]struct{}{}
+	fps := map[uint64]struct{}{}
+	logs := map[uint64]struct{}{}
 	var mu sync.Mutex
 	var wg sync.WaitGroup
 	var firstErr error
